@@ -98,6 +98,34 @@ def switch_source(body, t):
     return None
 
 
+def const_dead_edges(body):
+    """edges of switches over the discriminant of a local whose only definition is an enum literal (`let x = None; if let Some(..) = x`,
+    as emitted by async_trait): the arms of the other variants can never be taken"""
+    dead = set()
+    for bi in body.live_blocks():
+        t = body.blocks[bi]["term"]
+        if t["k"] != "switch":
+            continue
+        src = switch_source(body, t)
+        if not src or src[0] != "discr":
+            continue
+        p = src[1]["ops"][0].get("p")
+        if p is None or p["proj"]:
+            continue
+        df = single_def(body, p["l"])
+        if df is None or df["kind"] != "assign" or df["rv"]["k"] != "agg" or df["rv"].get("agg") != "adt" or not df["rv"].get("variant"):
+            continue
+        if any(d["kind"] == "mutarg" for d in body.defs().get(p["l"], [])):
+            continue
+        if any(st["rv"]["k"] == "ref" and st["rv"].get("mut") and st["rv"]["ops"][0].get("p", {}).get("l") == p["l"] for _, _, st in body.stmts()):
+            continue
+        vals = discr_values(t, src[1])
+        for lab, v in vals.items():
+            if v != df["rv"]["variant"]:
+                dead.add((bi, lab))
+    return dead
+
+
 def bool_values(t, pol=True):
     """label -> bool for a switch on a boolean"""
     vals = {}
